@@ -79,3 +79,40 @@ Proof. intros f H. unfold reply_view. apply N.leb_le in H. rewrite H. reflexivit
 
 Lemma reply_view_typ : forall f, fst (fst (reply_view f)) = f_typ f.
 Proof. intros f. unfold reply_view. destruct (f_len f <=? max_buffered); reflexivity. Qed.
+
+(* ---------------- the liveness half: an awaited reply IS delivered ----------------
+   In every reachable state in which the read loop is waiting for a header (RRead), a frame whose type
+   consults the await map and whose id is registered there is handed to exactly that caller by the one
+   RFrame event, whatever the handler does, and the read loop is back at its loop head: it cannot park
+   inside the dispatch (cf. C09_read_loop_never_parks_in_dispatch in Client/C09Flood.v). *)
+Lemma note_close_resp_fields : forall f s,
+  awaiting (note_close_resp f s) = awaiting s /\ callers (note_close_resp f s) = callers s /\
+  delivered (note_close_resp f s) = delivered s /\ peer_sent (note_close_resp f s) = peer_sent s.
+Proof. intros. unfold note_close_resp. destruct (_ && _); repeat split; reflexivity. Qed.
+
+Theorem awaited_reply_is_delivered : forall cfg evs f h c,
+  let s := run cfg evs in
+  reader s = RRead -> consults cfg (f_typ f) = true -> lookup (f_id f) (awaiting s) = Some c ->
+  let s' := step cfg s (RFrame f h) in
+  In (c, length (peer_sent s), f) (delivered s') /\
+  caller_result s' c = Some (ROk (length (peer_sent s)) f) /\
+  lookup (f_id f) (awaiting s') = None /\
+  reader s' = RTop.
+Proof.
+  intros cfg evs f h c s Hr Hcons Haw s'. subst s'.
+  pose proof (core_inv_run cfg evs) as Hinv. fold s in Hinv.
+  destruct (ci_await cfg s Hinv _ _ Haw) as (r & Hc).
+  cbn [step]. unfold step_rframe. rewrite Hr.
+  set (s1 := note_close_resp f (set_peer_sent (peer_sent s ++ [f]) s)).
+  destruct (note_close_resp_fields f (set_peer_sent (peer_sent s ++ [f]) s)) as (Ea & Ec & Ed & Ep). fold s1 in Ea, Ec, Ed, Ep.
+  st_simpl.
+  unfold take_waiter. rewrite Hcons, Ea, Haw. cbn [orb]. st_simpl_goal. rewrite Ec, Hc.
+  set (s2 := set_delivered _ _).
+  destruct (run_handler_same_core cfg (length (peer_sent s)) f h true s2) as (Hc2 & Ha2 & _ & Hd2 & _).
+  unfold caller_result. st_simpl_goal. rewrite Hd2, Ha2, Hc2.
+  subst s2. unfold set_caller. st_simpl_goal. rewrite Ed, Ec.
+  repeat split.
+  - apply in_or_app. right. now left.
+  - rewrite (lookup_update_same _ _ _ _ Hc). reflexivity.
+  - rewrite lookup_remove, N.eqb_refl. reflexivity.
+Qed.
